@@ -8,9 +8,9 @@ CONSTANTS MaxD, MaxCalls, MaxP
 Base == << UnitV(MaxP, 1), UnitV(MaxP, 2),
            VSub(UnitV(MaxP, 1), VScale(Half, UnitV(MaxP, 2))),
            VAdd(VScale(Two, UnitV(MaxP, 2)), UnitV(MaxP, 1)) >>
-VARIABLES d, np, blocks, hist, rets
-vars == <<d, np, blocks, hist, rets>>
-Init == d \in 1..MaxD /\ np = 2 /\ blocks = [p \in 1..Len(Base) |-> <<>>] /\ hist = <<>> /\ rets = <<>>
+VARIABLES d, np, blocks, hist, rets, ctor      \* ctor: 1 = pep.declare_block_partition(d), 2 = BlockPartition(d)
+vars == <<d, np, blocks, hist, rets, ctor>>
+Init == d \in 1..MaxD /\ ctor \in (IF d = 2 THEN {1, 2} ELSE {1}) /\ np = 2 /\ blocks = [p \in 1..Len(Base) |-> <<>>] /\ hist = <<>> /\ rets = <<>>
 RECURSIVE SumSeqV(_, _)
 SumSeqV(s, k) == IF k > Len(s) THEN ZeroV(MaxP) ELSE VAdd(s[k], SumSeqV(s, k + 1))
 Decompose(p, n0) == LET fresh == [k \in 1..(d - 1) |-> UnitV(MaxP, n0 + k)]
@@ -23,13 +23,13 @@ GetBlock(p, k) == /\ Len(hist) < MaxCalls /\ k \in 1..d
                      ELSE UNCHANGED <<blocks, np>>
                   /\ hist' = Append(hist, [p |-> p, k |-> k])
                   /\ rets' = Append(rets, blocks'[p][k])
-                  /\ UNCHANGED d
+                  /\ UNCHANGED <<d, ctor>>
 \* the solve-time generation of the partition constraints may also happen in the middle (a solve, then more points are
 \* decomposed, then another solve): [p |-> 0, k |-> 0] in the history.  It changes no block.
 Gen == /\ Len(hist) < MaxCalls /\ Len(hist) >= 1 /\ hist[Len(hist)].p # 0
        /\ \A i \in 1..Len(hist) : hist[i].p # 0                       \* at most one intermediate generation
        /\ hist' = Append(hist, [p |-> 0, k |-> 0]) /\ rets' = Append(rets, ZeroV(MaxP))
-       /\ UNCHANGED <<d, np, blocks>>
+       /\ UNCHANGED <<d, np, blocks, ctor>>
 Next == (\E p \in 1..Len(Base), k \in 1..MaxD : GetBlock(p, k)) \/ Gen
 Spec == Init /\ [][Next]_vars
 \* ---- what the property says, on a table of blocks
@@ -47,10 +47,10 @@ InvSame == \A i, j \in 1..Len(hist) : hist[i] = hist[j] => rets[i] = rets[j]
 Dim == 3
 CoordPartitions(dd) == {f \in [1..Dim -> 1..dd] : \A b \in 1..dd : \E c \in 1..Dim : f[c] = b}
 Proj(f, b, v) == [c \in 1..Dim |-> IF f[c] = b THEN v[c] ELSE Z]
-Grid == {<<RI(1), RI(0), RI(-1)>>, <<RI(1), RI(1), RI(1)>>, <<RI(0), RI(2), RI(-1)>>}
+Grid == {<<RI(1), RI(0), RI(-1)>>, <<RI(1), RI(2), RI(1)>>}
 RealOK == \A dd \in 1..MaxD : \A f \in CoordPartitions(dd) : \A v, w \in Grid :
              /\ LET RECURSIVE S(_)  S(b) == IF b > dd THEN [c \in 1..Dim |-> Z] ELSE VAdd(Proj(f, b, v), S(b + 1)) IN S(1) = v
              /\ \A b1, b2 \in 1..dd : b1 # b2 => VDot(Proj(f, b1, v), Proj(f, b2, w)) = Z
 ASSUME RealOK
-Emit == (Len(hist) = MaxCalls /\ hist[Len(hist)].p # 0) => PrintT(ToJson([d |-> d, h |-> hist]))
+Emit == (Len(hist) = MaxCalls /\ hist[Len(hist)].p # 0) => PrintT(ToJson([d |-> d, ctor |-> ctor, h |-> hist]))
 =============================================================================
